@@ -675,7 +675,7 @@ fn arrange_step<const R: usize, const U: usize, const P: usize>(apply: bool) {
     // witnesses, where the shape admits them
     kani::cover!(P == 0 || (cur >= 1 && exp_ret >= 1), "a waiting path switched to a new id (P >= 1)");
     kani::cover!(blocked, "a path keeps waiting: no unassigned id");
-    kani::cover!(P == 0 || b.pend[0].1.retired, "abandoned path dropped from the queue (P >= 1)");
+    kani::cover!(b.pend.first().map(|c| c.1.retired).unwrap_or(true), "abandoned path dropped from the queue (P >= 1)");
     kani::cover!(cur == P + apply as usize && cur > 0, "every waiting path served");
     core::mem::forget(t);
     core::mem::forget(b.ready);
@@ -757,26 +757,32 @@ s_harness!(c14_remote_frame_live_cell_s3, frame_live_step::<3>());
 #[kani::stub(alloc::fmt::format, stub_fmt)]
 #[kani::stub(std::sync::Mutex::lock, stub_lock)]
 #[kani::stub(crate::token::ResetToken::random_gen, stub_token)]
-fn c14_remote_limit_counts_active_ids() {
-    let limit = 2;
-    let (mut t, c0) = fresh(limit);
-    let mut active: u64 = 1; // sequence 0
-    let dup: bool = kani::any(); // NEW_CONNECTION_ID(1) delivered twice?
-    let f1 = NewConnectionIdFrame::new(cid_of(1), VarInt::from_u32(1), VarInt::from_u32(0));
-    if t.recv_new_cid_frame(f1).is_ok() {
-        active += 1;
+fn c14_remote_limit_counts_active_ids_pending() {
+    reset_sink();
+    let limit: u64 = 2;
+    let mut t: Table = RemoteCids::new(limit, Sink);
+    // after the handshake and one NEW_CONNECTION_ID(seq 1, retire_prior_to 0): the path uses id 0,
+    // id 1 is spare: two active ids == our active_connection_id_limit
+    let c0 = mk_cell(false, kani::any(), Some(0));
+    t.cid_deque.push_back(Some((0, cid_of(0), ResetToken::default()))).unwrap();
+    t.cid_deque.push_back(Some((1, cid_of(1), ResetToken::default()))).unwrap();
+    t.ready_cells.push_back(c0.clone()).unwrap();
+    t.cursor = 1;
+    // the peer issues a third id without retiring any
+    let f = NewConnectionIdFrame::new(cid_of(2), VarInt::from_u32(2), VarInt::from_u32(0));
+    let r = t.recv_new_cid_frame(f);
+    let mut active = 0u64;
+    let mut s = 0u64;
+    while s < 4 {
+        if matches!(t.cid_deque.get(s), Some(Some(_))) {
+            active += 1;
+        }
+        s += 1;
     }
-    if dup {
-        assert!(t.recv_new_cid_frame(f1).is_ok());
-    }
-    let f2 = NewConnectionIdFrame::new(cid_of(2), VarInt::from_u32(2), VarInt::from_u32(0));
-    if t.recv_new_cid_frame(f2).is_ok() {
-        active += 1;
-    }
+    kani::cover!(true, "reached");
     assert!(ret_count() == 0, "nothing was retired");
-    assert!(active <= limit, "RFC 9000 5.1.1: never more active peer-issued ids than the own active_connection_id_limit");
-    kani::cover!(dup, "duplicate delivery");
+    assert!(r.is_err() || active <= limit, "RFC 9000 5.1.1: more active peer-issued ids than the own active_connection_id_limit must be CONNECTION_ID_LIMIT_ERROR");
+    core::mem::forget(r);
     core::mem::forget(t);
     core::mem::forget(c0);
 }
-
